@@ -243,6 +243,11 @@ fn judge(b: &Base, thorough: bool, l: &mut Local) {
     }
     let v = with_line(&b.prog, b.instr, format!("  \t{}", line));
     compare(&base_src, &base_out, &v, "leading-blanks", b.family, l);
+    // a block comment in front of the mnemonic, on the instruction's own line
+    for head in [";* c *; ", "  ;* c *;", ";** c **;\t"] {
+        let v = with_line(&b.prog, b.instr, format!("{}{}", head, line));
+        compare(&base_src, &base_out, &v, "leading-comment", b.family, l);
+    }
 
     // 4. rule order and partition into blocks
     let top: Vec<usize> = b.prog.ruledefs.iter().enumerate().filter(|(_, d)| !d.sub).map(|(i, _)| i).collect();
@@ -349,7 +354,7 @@ fn judge(b: &Base, thorough: bool, l: &mut Local) {
 pub fn run(ctx: &Ctx) -> Report {
     let mut rep = Report::new(
         "exploration",
-        "metamorphic: base programs = C01 rule sets of 1..2 (thorough 3) templates x every pool line whose outcome the reference defines; renderings, all enumerated: case masks on the characters the pattern spells literally (all 2^k for k<=4 letters, else UPPER/alternating), upper/alternating case of the rule text, {blank, tab, two blanks, blank+block comment+blank} at each token boundary one at a time and all at once, trailing comments, leading blanks, all permutations of the rules, all splits into two blocks and one block per rule (named/anonymous), sub-rule blocks after their users, one consistent label renaming, literal-vs-expression pairs with the name also declared as a symbol. Each rendering must reproduce the base's success/failure and bits. Non-trivial = every rendering that differs textually from its base; distinct by text.",
+        "metamorphic: base programs = C01 rule sets of 1..2 (thorough 3) templates x every pool line whose outcome the reference defines; renderings, all enumerated: case masks on the characters the pattern spells literally (all 2^k for k<=4 letters, else UPPER/alternating), upper/alternating case of the rule text, {blank, tab, two blanks, blank+block comment+blank} at each token boundary one at a time and all at once, trailing comments, leading blanks, a block comment in front of the mnemonic, all permutations of the rules, all splits into two blocks and one block per rule (named/anonymous), sub-rule blocks after their users, one consistent label renaming, literal-vs-expression pairs with the name also declared as a symbol. Each rendering must reproduce the base's success/failure and bits. Non-trivial = every rendering that differs textually from its base; distinct by text.",
     );
     let pool = c01::pool();
     let mut lines: Vec<String> = vec![];
